@@ -7,6 +7,10 @@ import WB.Lemmas.C06Cell
 import WB.Lemmas.C06Tetra
 import WB.Lemmas.C06Orbit
 import WB.Lemmas.C06Calls
+import WB.Lemmas.C06Bridge
+import WB.Lemmas.C06Excl
+import WB.Lemmas.C06TetTile
+import WB.Lemmas.C06SplitSize
 import Mathlib.Tactic.IntervalCases
 
 namespace WB.C06
@@ -99,6 +103,37 @@ theorem orbit_hyp_needed :
     orbitCheck (4, 4, 1) (starIdx [⟨1, 0, 0, 0, 1, 0, 0, 0, 1, false, false⟩, ⟨0, 1, 0, -1, 0, 0, 0, 0, 1, false, false⟩] (4, 4, 1)) = false := by
   decide +kernel
 
+/-! ## T2' — orbit cover from GROUP hypotheses.  `GroupHyp syms div`: the list contains an operation acting as the
+    identity, for every operation one acting as its inverse, for every two one acting as their product (all as maps on
+    reduced vectors), and the grid passes the symmetric-grid test (`PointGroup.symmetric_grid`).  From these alone the star
+    relation on grid points is reflexive, symmetric, transitive, stays on the grid and `star` lists every orbit point
+    once (`orbitHyp_of_group`), hence the orbit-cover conclusion.  `groupCheck` is the executable form of the three
+    group conditions (run on the code's own point groups by the harness); `orbitCheck_sound` stays as the direct
+    run-time check of the derived facts. -/
+
+theorem getKList_orbit_cover_of_group (syms : List Sym) (div : Idx) (hG : GroupHyp syms div) :
+    (∀ r f, (r, f) ∈ kept syms div true →
+        inRange div r ∧ f = ((starIdx syms div r).length : Rat) / ((div.1 * div.2.1 * div.2.2 : Nat) : Rat)) ∧
+    (∀ q, inRange div q → ∃ r f, (r, f) ∈ kept syms div true ∧ q ∈ starIdx syms div r ∧
+        ∀ r' f', (r', f') ∈ kept syms div true → q ∈ starIdx syms div r' → r' = r) ∧
+    getKList syms div true =
+      (kept syms div true).map fun rf => { K := gridK div rf.1, dK := gridDK div, factor := rf.2, level := 0 } :=
+  getKList_orbit_cover syms div (orbitHyp_of_group syms div hG)
+
+/-- the group hypotheses imply the hypotheses of the orbit theorem -/
+theorem orbitHyp_of_groupHyp (syms : List Sym) (div : Idx) (hG : GroupHyp syms div) :
+    OrbitHyp div (starIdx syms div) := orbitHyp_of_group syms div hG
+
+/-- the executable group test (identity, inverses, products as signed matrices) + the symmetric-grid test give the
+    group hypotheses -/
+theorem groupCheck_sound (syms : List Sym) (div : Idx) (hd : 0 < div.1 ∧ 0 < div.2.1 ∧ 0 < div.2.2)
+    (hg : groupCheck syms = true) (hs : symmetricGrid syms div = true) : GroupHyp syms div :=
+  groupHyp_of_check syms div hd hg hs
+
+/-- the group 4/m on the 4x4x2 grid satisfies the group hypotheses -/
+example : GroupHyp exampleSyms (4, 4, 2) :=
+  groupCheck_sound _ _ ⟨by norm_num, by norm_num, by norm_num⟩ (by decide +kernel) (by decide +kernel)
+
 /-! ## T3 — `divide`: the children tile the parent's cell and carry the parent's weight -/
 
 /-- the children are exactly `child kp n c` for the index triples `c` below `n`, in the order of the loops -/
@@ -169,6 +204,39 @@ theorem excludeEquiv_conserves (eqv : Nat → Nat → Bool) (groups : List (List
     totalW (excludeEquivWith eqv groups l np) = totalW l ∧
     ((∀ k ∈ l, 0 ≤ k.factor) → ∀ k ∈ excludeEquivWith eqv groups l np, 0 ≤ k.factor) :=
   ⟨excludeEquivWith_total eqv groups l np, excludeEquivWith_nonneg eqv groups l np⟩
+
+/-! ## T4' — full specification of `exclude_equiv_points` when the test is an equivalence relation on the indices
+    (`EqvHyp`: reflexive, symmetric, transitive, old points pairwise inequivalent) and every equivalent pair is visited
+    by the double loop (`hcov`; true for the single group of the model and for the code's distGamma groups as long as
+    equivalent points share a group): the result consists exactly of the FIRST point of every class, in list order, each
+    with the sum of the weights of its class; and - without any hypothesis - old points are never deleted or moved. -/
+
+theorem excludeEquiv_spec (eqv : Nat → Nat → Bool) (groups : List (List Nat)) (l : List KPoint) (np : Nat)
+    (H : EqvHyp eqv (l.length - np) l.length)
+    (hcov : ∀ i j, i < j → j < l.length → eqv i j = true → (i, j) ∈ groupPairs groups) :
+    excludeEquivWith eqv groups l np =
+      ((List.range l.length).filter fun m => decide (isMin eqv m)).filterMap fun m =>
+        (l[m]?).map fun k => { k with factor := classWeight eqv l m } :=
+  excludeEquivWith_spec eqv groups l np H hcov
+
+theorem excludeEquiv_keeps_old (eqv : Nat → Nat → Bool) (groups : List (List Nat)) (l : List KPoint) (np : Nat)
+    (i : Nat) (hi : i < l.length - np) :
+    ((excludeEquivWith eqv groups l np)[i]?).map kkey = (l[i]?).map kkey :=
+  excludeEquivWith_keeps_old eqv groups l np i hi
+
+/-- the single group in index order used by the model visits every pair -/
+theorem single_group_covers (n : Nat) (i j : Nat) (hij : i < j) (hj : j < n) : (i, j) ∈ groupPairs [List.range n] := by
+  unfold groupPairs
+  simp only [List.flatMap_cons, List.flatMap_nil, List.append_nil, List.mem_flatMap, List.mem_map, List.mem_range,
+    Prod.mk.injEq]
+  exact ⟨i, by omega, j, hj, rfl, rfl⟩
+
+/-- non-vacuity: "same parity" on 5 points of which the first two are old -/
+example : EqvHyp (fun i j => i % 2 == j % 2) 2 5 :=
+  { refl := fun i _ => by simp
+    symm := fun i j _ _ h => by simp only [beq_iff_eq] at h ⊢; omega
+    trans := fun i j k _ _ _ h h' => by simp only [beq_iff_eq] at h h' ⊢; omega
+    old := fun i j hi hj hne => by simp only [beq_eq_false_iff_ne, ne_eq]; omega }
 
 /-! ## T5 — every refinement history keeps `Σ factor = 1` and `factor ≥ 0` -/
 
@@ -251,6 +319,74 @@ theorem old_break_test_loops_on_tie (f : Tet → Rat) (thr : Rat) (hthr : 0 ≤ 
     decide (maxOf (l.map f) < thr) = false ∧ splitPass (fun t => decide (f t > thr)) edge l = l := by
   refine ⟨by simp [htie], splitPass_none _ _ l ?_⟩
   exact (split_stops_iff_nothing_to_split f thr hthr l).mp (by simp [htie])
+
+/-! ## T6' — the pieces of an edge split TILE the parent tetrahedron (any edge `e`, any `ndiv = n > 0`), in the
+    parent's own frame (`divideTet_vertices`: the pieces sit at `t.K +` these vertices): a point lies in the closed
+    parent iff it lies in one of the closed pieces, and for a non-degenerate parent no point lies in the interior of two
+    different pieces. -/
+
+/-- the four vertices of piece `i` (relative to the parent's `K`), as `divideTet` passes them to `mkTet` -/
+def pieceVerts (t : Tet) (e n i : Nat) : V3 × V3 × V3 × V3 := pieceQ (quadOf t e) n i
+
+theorem divideTet_pieces (t : Tet) (e n : Nat) (refine : Bool) :
+    divideTet t e n refine = (List.range n).map fun i : Nat =>
+      mkTet (pieceVerts t e n i).1 (pieceVerts t e n i).2.1 (pieceVerts t e n i).2.2.1 (pieceVerts t e n i).2.2.2
+        t.K (t.factor / (n : Rat)) (t.level + (if refine then 1 else 0)) (t.split + (if refine then 0 else 1)) := rfl
+
+theorem divideTet_tiles (t : Tet) (e n : Nat) (hn : 0 < n) (p : V3) :
+    (inTetClosed (t.v0, t.v1, t.v2, t.v3) p ↔ ∃ i, i < n ∧ inTetClosed (pieceVerts t e n i) p) ∧
+    (t.volume ≠ 0 → ∀ i j, i < n → j < n → i ≠ j →
+      inTetOpen (pieceVerts t e n i) p → inTetOpen (pieceVerts t e n j) p → False) := by
+  constructor
+  · rw [quadOf_closed t e p]
+    constructor
+    · exact pieces_cover (quadOf t e) n hn p
+    · rintro ⟨i, hi, h⟩; exact piece_inside (quadOf t e) n i hn hi p h
+  · intro hv i j _ _ hij h1 h2
+    have hD : det3 (t.v1.sub t.v0) (t.v2.sub t.v0) (t.v3.sub t.v0) ≠ 0 := by
+      intro h0
+      apply hv
+      unfold Tet.volume volume4
+      rw [h0]; simp [absR]
+    have hq : det3 ((quadOf t e).2.1.sub (quadOf t e).1) ((quadOf t e).2.2.1.sub (quadOf t e).1)
+        ((quadOf t e).2.2.2.sub (quadOf t e).1) ≠ 0 := by
+      rcases quadOf_det t e with h | h <;> rw [h]
+      · exact hD
+      · exact neg_ne_zero.mpr hD
+    rcases Nat.lt_or_gt_of_ne hij with h | h
+    · exact pieces_disjoint (quadOf t e) hq n i j hn h p h1 h2
+    · exact pieces_disjoint (quadOf t e) hq n j i hn h p h2 h1
+
+/-- non-vacuity: the corner tetrahedron of the default set has non-zero volume; its centre lies in exactly the
+    pieces the theorem allows -/
+example : ((initTets fiveVerts none).getD 0 default).volume ≠ 0 := by decide +kernel
+
+/-- the fuel of the model is no restriction: once the result passes the break test, any additional fuel returns the
+    same list (`split_tetra_volume`, `split_tetra_size`, any break test / selection / edge choice) -/
+theorem splitLoop_fuel_irrelevant (stop : List Tet → Bool) (sel : Tet → Bool) (edge : Tet → Nat) (a d : Nat)
+    (l : List Tet) (h : stop (splitLoop stop sel edge a l) = true) :
+    splitLoop stop sel edge (a + d) l = splitLoop stop sel edge a l :=
+  splitLoop_stable stop sel edge a d l h
+
+/-- CONDITIONAL termination of `split_tetra_size`.  The hypothesis `hcontr` - `m` passes of the splitting rule bring
+    every squared size down to a quarter of the previous bound or below the threshold - is a geometric property of
+    longest-edge bisection that is NOT proved here (the unconditional statement remains open; the oracle checks
+    termination on the real code under a time guard).  Given it, lists with squared sizes `≤ 4^n · thr` are finished
+    after `m n + 1` passes and every squared size is `≤ thr`. -/
+theorem splitSize_terminates_of_contraction (g : Gram) (thr : Rat) (hthr : 0 < thr) (m : Nat)
+    (hcontr : ∀ (B : Rat) (l : List Tet), (∀ t ∈ l, t.sizeSq g ≤ B) →
+      ∀ t ∈ (splitPass (fun t => decide (t.sizeSq g > thr)) (Tet.iMaxEdge g))^[m] l, t.sizeSq g ≤ max thr (B / 4))
+    (n : Nat) (l : List Tet) (hl : ∀ t ∈ l, t.sizeSq g ≤ 4 ^ n * thr) :
+    ∀ t ∈ splitSize g thr (m * n + 1) l, t.sizeSq g ≤ thr :=
+  splitSize_done g thr hthr m hcontr n l hl
+
+/-- a concrete run: the five default tetrahedra, cubic metric, squared threshold 3/4: five passes suffice (the result
+    passes the break test), so by `splitLoop_fuel_irrelevant` any larger fuel gives the same 64 tetrahedra -/
+example :
+    let g : Gram := ⟨1, 0, 0, 1, 0, 1⟩
+    decide (maxOf ((splitSize g (3/4) 5 (initTets fiveVerts none)).map (Tet.sizeSq g)) ≤ 3/4) = true ∧
+    (splitSize g (3/4) 5 (initTets fiveVerts none)).length = 64 := by
+  decide +kernel
 
 /-- default weights: each starting tetrahedron gets `volume / Σ volume` (so they sum to 1 when the total is not 0);
     with explicit weights it gets `weight · volume` -/
